@@ -10,6 +10,16 @@ def units(tier):
     for m in E.MEDIA:
         u = Unit(E.EntryNew, {'media': m})
         us.append(u)
+    us.append(Unit(E.BootInfoTableRecord))
+    sizes = [(0, 0), (63, 0), (64, 0), (65, 0), (68, 0), (100, 0), (2048, 0), (2052, 0)] if tier == 'quick' else [(n, 0) for n in list(range(0, 140)) + [2047, 2048, 2049, 2052, 4096, 4100]]
+    for n, extra in sizes + [(100, 8), (2052, 40)]:
+        us.append(Unit(E.BootInfoChecksum, {'n': n, 'extra': extra}))
+    for k in ([0, 1, 2, 3, 31] if tier == 'quick' else range(0, 32)):
+        for plat in ((0, 0xef) if k < 3 else (0,)):
+            us.append(Unit(E.CatalogRecord, {'k': k, 'platform': plat}))
+    us.append(Unit(E.CatalogTooManySections))
+    us.append(Unit(E.RmEltoritoDetachEntry, {'with_table': True}))
+    us.append(Unit(E.RmEltoritoDetachEntry, {'with_table': False}))
     return us
 
 
@@ -19,3 +29,23 @@ def canaries(tier):
 
 OPTS = {'quick': {'timeout_ms': 30000}}
 META = {}
+
+META = {
+    'assumptions': [
+        'boot-info checksum: E family over the boot file length n (quick: boundary lengths around 64 and one multi-sector length; thorough: 0..139 and sector boundaries), symbolic content, plus members with bytes following the file in the source object',
+        'boot catalog: E family over the number of sections k (quick 0,1,2,3,31; thorough 0..31), symbolic load sizes, no-emulation entries; platform in {0, 0xef}',
+        'loop invariants (validation checksum: csum = word sum mod 2^16; boot-info checksum: csum = word sum mod 2^32 with a ghost sum) are proved per iteration with the state cut at every iteration',
+    ],
+    'out_of_reach': [
+        'that each entry load_rba equals the extent the boot file finally gets is proved for the placement loop body (C12 fragment contract, entry-placed-at-current-extent) but the whole-image layout composition (C04) is not machine-checked',
+        'catalog reachable as a file with identical bytes (catalog branch of _get_file_from_iso_fp) and the read-back overlay of the table are not under contract yet',
+        'hdmbrcheck and the hard-disk emulation path of add_eltorito; add_eltorito bound on load size (struct.error at write for > 65535 sectors: candidate K23)',
+    ],
+    'bounded': [],
+}
+
+MANIFEST = {
+    'level_text': 'Proof (deductive): validation-entry checksum (for every 32-byte entry, by loop invariant), validation/initial/section entry layouts and media-type table, catalog layout for k sections, catalog pointer in the boot record, boot-info-table layout and checksum = word sum of the file bytes from offset 64 (loop invariant with ghost sum), El Torito removal detaching entry and table; all on the real ASTs, contracts from El Torito 1.0 and the C11 statement. Two defects found and repaired (K24, K25).',
+    'level_note': 'Trusted: pyvc (per-path CPython cross-check, canary), z3, struct/file models. Lengths/section counts are enumerated families (quick run = boundary members only). Not decided: whole-image placement (C04 composition), catalog-as-file bytes, read-back overlay, hard-disk emulation checks.',
+    'design_ref': 'DESIGN.md section 4 C11',
+}
